@@ -22,7 +22,7 @@ static int pathcmp(void *my_data, void *node_data);
 static int pidcmp(void *my_data, void *node_data);
 static int taskcmp(void *my_data, void *node_data);
 static int threshcmp(void *my_data, void *node_data);
-static void fill_key_src(ev_src_t *key, m_src_types type, const void *src_data);
+static void fill_key_src(ev_src_t *key, m_src_types type, const void *src_data, m_src_flags flags);
 
 /* Process functions */
 static ev_src_t *process_ps(ev_src_t *this, m_ctx_t *c, int idx, evt_priv_t *evt);
@@ -228,7 +228,9 @@ static int tmrcmp(void *my_data, void *node_data) {
     ev_src_t *key = (ev_src_t *)my_data;
     ev_src_t *src = (ev_src_t *)node_data;
 
-    return M_CMP(key->tmr_src.its.ns, src->tmr_src.its.ns);
+    const int ret = M_CMP(key->tmr_src.its.ns, src->tmr_src.its.ns);
+    /* Library's own timers (batch timeout, tokenbucket refill) never collide with user's timers with same period */
+    return ret ? ret : M_CMP(key->flags & M_SRC_INTERNAL, src->flags & M_SRC_INTERNAL);
 }
 
 static int sgncmp(void *my_data, void *node_data) {
@@ -269,9 +271,10 @@ static int threshcmp(void *my_data, void *node_data) {
 }
 
 /* Build the key source needed to look for the source identified by user's src_data */
-static void fill_key_src(ev_src_t *key, m_src_types type, const void *src_data) {
+static void fill_key_src(ev_src_t *key, m_src_types type, const void *src_data, m_src_flags flags) {
     memset(key, 0, sizeof(*key));
     key->type = type;
+    key->flags = flags & M_SRC_INTERNAL;
     switch (type) {
     case M_SRC_TYPE_PS:
     case M_SRC_TYPE_FD:
@@ -446,12 +449,12 @@ int register_mod_src(m_mod_t *mod, m_src_types type, const void *src_data,
     return ret;
 }
 
-int deregister_mod_src(m_mod_t *mod, m_src_types type, void *src_data) {
+int deregister_mod_src(m_mod_t *mod, m_src_types type, void *src_data, m_src_flags flags) {
     M_MOD_ASSERT(mod);
     M_MOD_CONSUME_TOKEN(mod);
 
     ev_src_t key;
-    fill_key_src(&key, type, src_data);
+    fill_key_src(&key, type, src_data, flags);
     return m_bst_remove(mod->srcs[type], &key);
 }
 
@@ -478,7 +481,7 @@ _public_ int m_mod_src_register_fd(m_mod_t *mod, int fd, m_src_flags flags, cons
 _public_ int m_mod_src_deregister_fd(m_mod_t *mod, int fd) {
     M_PARAM_ASSERT(fd >= 0);
 
-    return deregister_mod_src(mod, M_SRC_TYPE_FD, (void *)&fd);
+    return deregister_mod_src(mod, M_SRC_TYPE_FD, (void *)&fd, 0);
 }
 
 _public_ int m_mod_src_register_tmr(m_mod_t *mod, const m_src_tmr_t *its, m_src_flags flags, const void *userptr) {
@@ -490,7 +493,7 @@ _public_ int m_mod_src_register_tmr(m_mod_t *mod, const m_src_tmr_t *its, m_src_
 _public_ int m_mod_src_deregister_tmr(m_mod_t *mod, const m_src_tmr_t *its) {
     M_PARAM_ASSERT(its && its->ns > 0);
 
-    return deregister_mod_src(mod, M_SRC_TYPE_TMR, (void *)its);
+    return deregister_mod_src(mod, M_SRC_TYPE_TMR, (void *)its, 0);
 }
 
 _public_ int m_mod_src_register_sgn(m_mod_t *mod, const m_src_sgn_t *sgs, m_src_flags flags, const void *userptr) {
@@ -502,7 +505,7 @@ _public_ int m_mod_src_register_sgn(m_mod_t *mod, const m_src_sgn_t *sgs, m_src_
 _public_ int m_mod_src_deregister_sgn(m_mod_t *mod, const m_src_sgn_t *sgs) {
     M_PARAM_ASSERT(sgs && sgs->signo > 0);
 
-    return deregister_mod_src(mod, M_SRC_TYPE_SGN, (void *)sgs);
+    return deregister_mod_src(mod, M_SRC_TYPE_SGN, (void *)sgs, 0);
 }
 
 _public_ int m_mod_src_register_path(m_mod_t *mod, const m_src_path_t *pt, m_src_flags flags, const void *userptr) {
@@ -517,7 +520,7 @@ _public_ int m_mod_src_deregister_path(m_mod_t *mod, const m_src_path_t *pt) {
     M_PARAM_ASSERT(pt);
     M_PARAM_ASSERT(str_not_empty(pt->path));
 
-    return deregister_mod_src(mod, M_SRC_TYPE_PATH, (void *)pt);
+    return deregister_mod_src(mod, M_SRC_TYPE_PATH, (void *)pt, 0);
 }
 
 _public_ int m_mod_src_register_pid(m_mod_t *mod, const m_src_pid_t *pid, m_src_flags flags, const void *userptr) {
@@ -529,7 +532,7 @@ _public_ int m_mod_src_register_pid(m_mod_t *mod, const m_src_pid_t *pid, m_src_
 _public_ int m_mod_src_deregister_pid(m_mod_t *mod, const m_src_pid_t *pid) {
     M_PARAM_ASSERT(pid && pid->pid > 0);
 
-    return deregister_mod_src(mod, M_SRC_TYPE_PID, (void *)pid);
+    return deregister_mod_src(mod, M_SRC_TYPE_PID, (void *)pid, 0);
 }
 
 _public_ int m_mod_src_register_task(m_mod_t *mod, const m_src_task_t *tid, m_src_flags flags, const void *userptr) {
@@ -554,7 +557,7 @@ _public_ int m_mod_src_register_thresh(m_mod_t *mod, const m_src_thresh_t *thr, 
 _public_ int m_mod_src_deregister_thresh(m_mod_t *mod, const m_src_thresh_t *thr) {
     M_PARAM_ASSERT(thr && (thr->activity_freq > 0 || thr->inactive_ms > 0));
 
-    return deregister_mod_src(mod, M_SRC_TYPE_THRESH, (void *)thr);
+    return deregister_mod_src(mod, M_SRC_TYPE_THRESH, (void *)thr, 0);
 }
 
 _public_ ssize_t m_mod_src_len(const m_mod_t *mod, m_src_types type) {
